@@ -38,13 +38,13 @@ Ev     == T.events
 TS     == SeqSet(T.tasks)
 PS     == SeqSet(T.pilots)
 
-KK(dE, dR, dF, dC, dH) == [policy |-> T.policy,
+KK(dE, dR, dF, dC, dH, dK) == [policy |-> T.policy,
                named  |-> [t \in TS |-> T.named[t]],
                cores  |-> [t \in TS |-> T.cores[t]],
                hwm    |-> [p \in PS |-> T.hwm[p]],
                lo |-> T.lo, hi |-> T.hi, devEarly |-> dE, devRaise |-> dR,
-               devAddFresh |-> dF, devCtrRaise |-> dC, devHalfValid |-> dH]
-K == KK(FALSE, FALSE, FALSE, FALSE, FALSE)
+               devAddFresh |-> dF, devCtrRaise |-> dC, devHalfValid |-> dH, devKnownRaises |-> dK]
+K == KK(FALSE, FALSE, FALSE, FALSE, FALSE, FALSE)
 
 ToCs(st) == [role  |-> [p \in PS |-> st.role[p]],
              pst   |-> [p \in PS |-> st.pst[p]],
@@ -73,8 +73,8 @@ Init ==
   /\ errs = {} /\ fin = FALSE
 
 \* what the design model expects of this callback, for one setting of the deviations
-Expect(e, dE, dR, dF, dC, dH) ==
-  LET k == KK(dE, dR, dF, dC, dH) IN
+Expect(e, dE, dR, dF, dC, dH, dK) ==
+  LET k == KK(dE, dR, dF, dC, dH, dK) IN
   CASE e.ev = "Submit"       -> StepSubmit(k, cs, e.batch)
     [] e.ev = "AddPilots"    -> StepAdd(k, cs, e.add)
     [] e.ev = "RemovePilots" -> StepRemove(k, cs, e.pids)
@@ -103,9 +103,11 @@ Step ==
          input == CASE e.ev = "Submit"       -> \A t \in B : tst[t] = "new"
                     [] e.ev = "TaskStates"   -> \A t \in B : tst[t] = "fwd"
                     [] OTHER                 -> TRUE
-         model == \E dE \in BOOLEAN, dR \in BOOLEAN, dF \in BOOLEAN, dC \in BOOLEAN, dH \in BOOLEAN :
-                          LET x == Expect(e, dE, dR, dF, dC, dH)
+         model == \E dE \in BOOLEAN, dR \in BOOLEAN, dF \in BOOLEAN, dC \in BOOLEAN, dH \in BOOLEAN,
+                     dK \in BOOLEAN :
+                          LET x == Expect(e, dE, dR, dF, dC, dH, dK)
                           IN  x.cs = lcs /\ x.fwd = lfwd /\ x.ex = lex
+                              /\ SeqSet(FailOf(x)) = SeqSet(e.failed)
          \* ---- role as commanded, furthest state ever notified or added --------
          role2 == [p \in PS |-> IF p \in P THEN "added"
                                 ELSE IF p \in R THEN "removed"
@@ -143,7 +145,7 @@ Step ==
                        "C12.OnlyAdded") : i \in 1 .. Len(lfwd)}
          \cup UNION {E(e.fwd[i].sbx = "ok", "C12.SandboxOfBoundPilot") : i \in 1 .. Len(lfwd)}
               \* tasks wait while they cannot be bound: not failed, not lost, not twice
-         \cup E(Len(e.failed) = 0, "C12.WaitWithoutPilot")
+         \cup E(Len(e.failed) = 0, "C12.FailedByScheduler")
          \cup UNION {E(tst2[t] = "sub" =>
                          IF T.named[t] = "none"
                          THEN Count(lcs.wait, t) = 1
